@@ -245,6 +245,7 @@ pub fn install_panic_hook() {
             "<non-string panic>".to_string()
         };
         let thread = std::thread::current().name().unwrap_or("?").to_string();
+        eprintln!("PANIC at {} [{}]: {}", location, thread, message);
         PANICS.lock().unwrap_or_else(|e| e.into_inner()).push((location.clone(), message.clone(), thread.clone()));
         push(Kind::Panic { location, message, thread });
     }));
